@@ -24,6 +24,11 @@ let wev_of s =
   if s = "p" then WPending else if s.[0] = 'a' then WAccept (nat_of_int (int_of_string (Stdlib.String.sub s 1 (Stdlib.String.length s - 1))))
   else if s.[0] = 'f' then WFail (n_of_int (int_of_string (Stdlib.String.sub s 1 (Stdlib.String.length s - 1)))) else failwith ("wev " ^ s)
 let show_wres r = match r with WOk -> "ok" | WErr e -> Printf.sprintf "err%d" (int_of_n e) | WBlocked -> "blocked"
+let item_of s =
+  if s = "s" then ISkip else if s = "e" then IEnd
+  else if s.[0] = 'b' then IBytes (bytes_of_hex (Stdlib.String.sub s 1 (Stdlib.String.length s - 1))) else failwith ("item " ^ s)
+let show_item i = match i with IBytes d -> "b" ^ hex_of_bytes d | ISkip -> "s" | IEnd -> "e"
+let show_ev e = match e with Data d -> "D" ^ hex_of_bytes d | RdErr e -> Printf.sprintf "E%d" (int_of_n e) | Elapsed -> "T" | Eof -> "Z"
 let rec split_bar acc l = match l with [] -> (Stdlib.List.rev acc, []) | "|" :: t -> (Stdlib.List.rev acc, t) | x :: t -> split_bar (x :: acc) t
 
 let handle (toks : Stdlib.String.t list) : Stdlib.String.t =
@@ -46,6 +51,20 @@ let handle (toks : Stdlib.String.t list) : Stdlib.String.t =
        | Bad rest -> Printf.sprintf "bad %d" (Stdlib.List.length buf - Stdlib.List.length rest)
        | FrameErr -> "frameerr 0"
        | DPanic -> "panic 0")
+  | "adaptor" :: k :: sc :: rest ->
+      let (its, sizes) = split_bar [] rest in
+      let ((es, buf), rem) = run_adaptor (k = "U") (nat_of_int (int_of_string sc)) (Stdlib.List.map item_of its) (Stdlib.List.map (fun s -> nat_of_int (int_of_string s)) sizes) in
+      Stdlib.String.concat " " (Stdlib.List.map show_ev es) ^ " | " ^ hex_of_bytes buf ^ " " ^ string_of_int (Stdlib.List.length rem)
+  | "asession" :: m :: v :: k :: sc :: rest ->
+      let (fs, rest2) = split_bar [] rest in
+      let (its, sizes) = split_bar [] rest2 in
+      let tab = Stdlib.List.map frame_of fs in
+      Stdlib.String.concat " " (Stdlib.List.map show_out
+        (run_adaptor_session (mode_of m) (v = "1") tab (k = "U") (nat_of_int (int_of_string sc)) (Stdlib.List.map item_of its)
+           (Stdlib.List.map (fun s -> nat_of_int (int_of_string s)) sizes)))
+  | ["awrite"; h] ->
+      let (its, n) = awrite (bytes_of_hex h) in
+      Stdlib.String.concat " " (Stdlib.List.map show_item its) ^ " " ^ string_of_int (int_of_nat n)
   | ["enclen"; m; l] -> show_res (fun n -> string_of_int (int_of_n n)) (encode_length (mode_of m) (nat_of_int (int_of_string l)))
   | ["pong"; m] -> hex_of_bytes (pong_frame (mode_of m))
   | _ -> "?bad-op"
